@@ -31,7 +31,7 @@ ASSUMPTIONS = [
     "reference model: docs/track.rst 'retryable operations' + the property statement (generic transport errors are not timeouts)",
 ]
 
-OUTCOMES = ["ok", "fail", "nondict", "conn-timeout", "conn-error", "sock-timeout", "api-408", "api-500", "transport-error", "tls-error"]
+OUTCOMES = ["ok", "fail", "nondict", "noflag", "none", "conn-timeout", "conn-error", "sock-timeout", "api-408", "api-500", "transport-error", "tls-error"]
 SERVICE = 0.25
 
 
@@ -45,6 +45,10 @@ def make_outcome(kind, i):
         return ("ret", {"success": False, "weight": 1, "unit": "ops", "attempt": i})
     if kind == "nondict":
         return ("ret", (i + 1, "docs"))
+    if kind == "noflag":  # a dict result that says nothing about success counts as a success
+        return ("ret", {"weight": 1, "unit": "ops", "attempt": i})
+    if kind == "none":
+        return ("ret", None)
     if kind == "conn-timeout":
         return ("exc", elasticsearch.exceptions.ConnectionTimeout(f"timeout {i}"))
     if kind == "conn-error":
@@ -143,7 +147,7 @@ def reference(ps, word):
     decisions = []
     for i, k in enumerate(word):
         last = attempts is not None and i + 1 == attempts
-        if k in ("ok", "nondict"):
+        if k in ("ok", "nondict", "noflag", "none"):
             decisions.append("return")
             break
         if k == "fail":
